@@ -473,6 +473,10 @@ mut("c05-mirror-ranged-unswapped", "C05", "location.go", "ret := PartialRange(le
 mut("c04-normalize-ambiguous-reverted", "C04", "location.go", "return Ambiguous{ambiguous.Start % length, (ambiguous.End-1)%length + 1}", "return Ambiguous{ambiguous.Start % length, ambiguous.End % length}", ["NORMALIZE-ARITH|gts.Ambiguous.Normalize"], note="the repaired defect, reintroduced")
 mut("c04-normalize-ranged-end", "C04", "location.go", "start, end := ranged.Start%length, (ranged.End-1)%length+1", "start, end := ranged.Start%length, ranged.End%length", ["NORMALIZE-ARITH|gts.Ranged.Normalize"])
 
+
+mut("c07-commit-body-origin-reverted", "C07", "seqio/genbank_subparsers.go", "\t\t\tpars.Line(state, result)\n\t\t\tstate.Clear()\n\n\t\t\tif err := state.Request(toOriginLength(length)); err != nil {", "\t\t\tpars.Line(state, result)\n\n\t\t\tif err := state.Request(toOriginLength(length)); err != nil {", ["COMMIT-BODY|seqio.makeGenbankOriginParser|ORIGIN"], note="the repaired defect, reintroduced")
+mut("c07-commit-body-dblink-late", "C07", "seqio/genbank_subparsers.go", "\t\tstate.Clear()\n\t\tif err := pairParser(state, result); err != nil {\n\t\t\treturn err\n\t\t}\n", "\t\tif err := pairParser(state, result); err != nil {\n\t\t\treturn err\n\t\t}\n\t\tstate.Clear()\n", ["COMMIT-BODY|seqio.genbankDBLinkParser|DBLINK"], note="committing after the first pair leaves its error uncommitted")
+
 if __name__ == "__main__":
     here = os.path.dirname(os.path.abspath(__file__))
     ids = [m["id"] for m in M]
